@@ -495,7 +495,15 @@ void PoseidonGoldilocks::merkletree_avx512(Goldilocks::Element *tree, Goldilocks
 #pragma omp parallel for num_threads(nThreads)
     for (uint64_t i = 0; i < num_rows; i += 2)
     {
-        linear_hash_avx512(&cursor[i * CAPACITY], &input[i * num_cols * dim], num_cols * dim);
+        if (i + 1 < num_rows)
+        {
+            linear_hash_avx512(&cursor[i * CAPACITY], &input[i * num_cols * dim], num_cols * dim);
+        }
+        else
+        {
+            // odd tail (a single row): there is no second row to pair with
+            linear_hash(&cursor[i * CAPACITY], &input[i * num_cols * dim], num_cols * dim);
+        }
     }
 
     // Build the merkle tree
@@ -539,6 +547,19 @@ void PoseidonGoldilocks::merkletree_batch_avx512(Goldilocks::Element *tree, Gold
     for (uint64_t i = 0; i < num_rows; i += 2)
     {
         Goldilocks::Element buff0[2 * nbatches * CAPACITY];
+        if (i + 1 >= num_rows)
+        {
+            // odd tail (a single row): there is no second row to pair with
+            for (uint64_t j = 0; j < nbatches; j++)
+            {
+                uint64_t nn = batch_size;
+                if (j == nbatches - 1)
+                    nn = nlastb;
+                linear_hash(&buff0[j * CAPACITY], &input[i * num_cols * dim + j * batch_size * dim], nn * dim);
+            }
+            linear_hash(&cursor[i * CAPACITY], buff0, nbatches * CAPACITY);
+            continue;
+        }
         for (uint64_t j = 0; j < nbatches; ++j)
         {
             uint64_t nn = batch_size;
